@@ -103,6 +103,11 @@ namespace trompeloeil {
 
     sequence_matcher(const sequence_matcher&) = delete;
     sequence_matcher(sequence_matcher&&) = default;
+    ~sequence_matcher() override
+    {
+      auto lock = get_lock();
+      this->unlink();
+    }
     sequence_matcher& operator=(sequence_matcher const&) = delete;
 
     void
